@@ -148,9 +148,16 @@ func (l *PackageDeployer) Deploy(
 	}
 
 	// Check constraints
-	if err := validateConstraints(ctx, l.uncachedClient, apiPkg, pkg.Manifest, env); err != nil {
+	unmet, err := unmetConstraints(ctx, l.uncachedClient, apiPkg, pkg.Manifest, env)
+	if err != nil {
 		setInvalidConditionBasedOnLoadError(apiPkg, err)
 		return err
+	}
+	if len(unmet) > 0 {
+		setInvalidConditionBasedOnUnmetConstraints(apiPkg, unmet)
+		// Explicitly do not return an error here, so the Invalid condition is persisted
+		// and a package that must not be installed here is not pulled over and over again.
+		return nil
 	}
 
 	// prepare package render/template context
@@ -322,11 +329,38 @@ func validateUnique(
 	}
 }
 
+// validateConstraints records unmet constraints in the Invalid condition of the given package.
 func validateConstraints(
 	ctx context.Context,
 	uncachedClient client.Client,
 	apiPkg adapters.GenericPackageAccessor, manifest *manifests.PackageManifest, env manifests.PackageEnvironment,
 ) error {
+	messages, err := unmetConstraints(ctx, uncachedClient, apiPkg, manifest, env)
+	if err != nil {
+		return err
+	}
+	if len(messages) > 0 {
+		setInvalidConditionBasedOnUnmetConstraints(apiPkg, messages)
+	}
+	return nil
+}
+
+func setInvalidConditionBasedOnUnmetConstraints(pkg adapters.GenericPackageAccessor, messages []string) {
+	meta.SetStatusCondition(pkg.GetConditions(), metav1.Condition{
+		Type:               corev1alpha1.PackageInvalid,
+		Status:             metav1.ConditionTrue,
+		Reason:             "ConstraintsFailed",
+		Message:            "Constraints not met: " + strings.Join(messages, ", "),
+		ObservedGeneration: pkg.ClientObject().GetGeneration(),
+	})
+}
+
+// unmetConstraints returns a message for every constraint of the manifest that is not met.
+func unmetConstraints(
+	ctx context.Context,
+	uncachedClient client.Client,
+	apiPkg adapters.GenericPackageAccessor, manifest *manifests.PackageManifest, env manifests.PackageEnvironment,
+) ([]string, error) {
 	var messages []string
 	for _, constraint := range manifest.Spec.Constraints {
 		if len(constraint.Platform) > 0 {
@@ -338,7 +372,7 @@ func validateConstraints(
 		if constraint.PlatformVersion != nil {
 			rangeConstraint, err := semver.NewConstraint(constraint.PlatformVersion.Range)
 			if err != nil {
-				return err
+				return nil, err
 			}
 			pv := constraint.PlatformVersion
 			var version semver.Version
@@ -352,7 +386,7 @@ func validateConstraints(
 				ok = false
 			}
 			if err != nil {
-				return err
+				return nil, err
 			}
 			if !ok {
 				continue
@@ -367,22 +401,12 @@ func validateConstraints(
 
 	extra, err := validateUnique(ctx, uncachedClient, apiPkg, manifest)
 	if err != nil {
-		return err
+		return nil, err
 	}
 
 	messages = append(messages, extra...)
 
-	if len(messages) > 0 {
-		meta.SetStatusCondition(apiPkg.GetConditions(), metav1.Condition{
-			Type:               corev1alpha1.PackageInvalid,
-			Status:             metav1.ConditionTrue,
-			Reason:             "ConstraintsFailed",
-			Message:            "Constraints not met: " + strings.Join(messages, ", "),
-			ObservedGeneration: apiPkg.ClientObject().GetGeneration(),
-		})
-	}
-
-	return nil
+	return messages, nil
 }
 
 func platformConstraintMet(
